@@ -193,7 +193,7 @@ func init() {
 					}
 				}
 			}
-			for m := 0; m < 3; m++ {
+			for m := 0; m < 4; m++ {
 				rs = append(rs, HRun{Pkg: "./dig", Fn: "ZZ_C11_Insert", Params: []int{m}})
 			}
 			return rs
@@ -202,7 +202,7 @@ func init() {
 			"event layouts: 3 inputs, every combination of indexed/selected (64 layouts, case-split) and leaf types from {uint256,address,bool,bytes32,int256,uint8}; topics, log data and every block/tx/log field are solver-quantified",
 			"array inputs (ZZ_C11_Array): T[] with 1-2 (thorough 3) elements and T[2] (thorough T[1..3]) for T in {address,uint256,int256,uint8,bytes32,uint64}, alone or followed by a selected address input; data is the reference ABI encoding (harness/dig/c09.go) of symbolic elements; arrays of bool/string/bytes are NOT asserted: dbtype matches those three names exactly, so their array elements are stored as the raw 32-byte word / bytes (an observation, not claimed either way)",
 			"decimal rendering (uint256.Dec / negInt.Value) is outside: integer cells are compared as 256-bit limbs before rendering",
-			"Integration.Insert is run over blocks with two transactions / two trace actions / two logs and the rows are read when COPY drains them (values held by reference are observed when stored)",
+			"Integration.Insert is run over blocks with two transactions / two trace actions / two logs / three logs of the event interleaved with logs of other events (same signature hash with another topic count, another hash) and the rows are read when COPY drains them (values held by reference are observed when stored)",
 			"the path JSON -> client is covered by C07/C14, COPY -> stored value (pgx binary encoding, Postgres) is outside",
 		},
 		Bounds: map[string]string{
@@ -412,7 +412,7 @@ func init() {
 	}
 	register(&PropSpec{
 		ID:   "C01",
-		Pkgs: []string{"./shovel", "./jrpc2"},
+		Pkgs: []string{"./shovel", "./jrpc2", "./dig"},
 		Runs: func(tier string) []HRun {
 			var rs []HRun
 			ks, bs, cs := steps(tier)
@@ -430,9 +430,13 @@ func init() {
 			for kind := 0; kind <= 2; kind++ {
 				rs = append(rs, HRun{Pkg: "./jrpc2", Fn: "ZZ_C08_Seq", Params: []int{kind, 2, 2, 1}, MaxPaths: 200000, Label: "refetch-yields-items-once"})
 			}
+			// the rows of one Insert call survive items that yield no row (logs of other events in between)
+			for m := 0; m < 4; m++ {
+				rs = append(rs, HRun{Pkg: "./dig", Fn: "ZZ_C11_Insert", Params: []int{m}, Label: "every-item-of-the-batch-reaches-copy"})
+			}
 			return rs
 		},
-		Assumptions: append([]string{"what Destination.Insert derives from a block (rows per log/tx/trace) is decided by C09/C11/C12/C13/C14; this check decides that each block in range is handed to Insert exactly once and that the position advances by exactly those blocks"}, convAssume...),
+		Assumptions: append([]string{"what Destination.Insert derives from a block (rows per log/tx/trace) is decided by C09/C11/C12/C13/C14; this check decides that each block in range is handed to Insert exactly once and that the position advances by exactly those blocks; that one Insert call hands every item's row to COPY (two transactions / trace actions / logs, and logs of other events between the declared event's logs) is decided by the ZZ_C11_Insert runs"}, convAssume...),
 		Bounds:      map[string]string{"quick": "k in 0..2 prior cursor rows; batch_size in {1,2,3} x concurrency in {1,2,4} (includes batch < concurrency and non-divisible pairs); head, start, cursor numbers free 64-bit values < 2^62", "thorough": "k in 0..3; batch in {1,2,3,4,6} x concurrency in {1,2,3,4,8}; both goroutine orders"},
 		Outside:     []string{"real pgx/COPY and JSON", "pollDuration timing", "batch sizes above the bound (the partition arithmetic is checked for the listed pairs only)"},
 	})
@@ -770,6 +774,12 @@ func init() {
 				for w := 0; w <= 2; w++ {
 					rs = append(rs, HRun{Pkg: "./shovel/config", Fn: "ZZ_C16_Missing", Params: []int{a, w}})
 				}
+				if a == 0 {
+					// a later one of several selected inputs / block fields lacks its column
+					for w := 3; w <= 5; w++ {
+						rs = append(rs, HRun{Pkg: "./shovel/config", Fn: "ZZ_C16_Missing", Params: []int{0, w}})
+					}
+				}
 			}
 			return rs
 		},
@@ -830,6 +840,19 @@ func init() {
 					rs = append(rs, HRun{Pkg: "./jrpc2", Fn: "ZZ_C18_Shared", Params: []int{a, b}})
 				}
 			}
+			// the same with node failures: the cache's error paths run concurrently with the other task
+			fp := [][2]int{{4, 4}, {0, 0}, {0, 2}, {3, 3}}
+			if tier == "thorough" {
+				fp = nil
+				for a := 0; a <= 4; a++ {
+					for b := a; b <= 4; b++ {
+						fp = append(fp, [2]int{a, b})
+					}
+				}
+			}
+			for _, ab := range fp {
+				rs = append(rs, HRun{Pkg: "./jrpc2", Fn: "ZZ_C18_SharedFail", Params: []int{ab[0], ab[1]}, MaxPaths: 200000})
+			}
 			rs = append(rs, HRun{Pkg: "./jrpc2", Fn: "ZZ_C18_Head", Params: []int{0}}, HRun{Pkg: "./jrpc2", Fn: "ZZ_C18_Head", Params: []int{1}})
 			// every scenario also with the goroutines recorded in reverse spawn order
 			n := len(rs)
@@ -842,12 +865,12 @@ func init() {
 		},
 		Assumptions: []string{
 			"reduced form: goroutine bodies (errgroup closures) are executed sequentially by the engine while every memory access, lock acquire/release, fork, join, WaitGroup signal/wait is logged with its thread; for every pair of conflicting accesses of different threads z3 decides, over one integer order variable per event, whether some schedule consistent with program order, fork/join, lock mutual exclusion and read consistency (every other read sees the write it saw on the recorded path) leaves the two accesses unordered",
-			"control flow and addresses are those of the recorded symbolic paths; races that only appear on paths where a read observes another write are not found (conservative: never invents a race); byte buffers are one location each; atomics conflict only with plain accesses",
-			"scenarios: Task.load/insert partition goroutines inside one Converge step (batch x concurrency); two tasks with any two of five data plans fetching one cached range concurrently and consuming the blocks as Task.load and dig.Insert do (copy into an own slice, read fields); two tasks and the poller using the head cache concurrently, after a poller error or an announcement",
+			"control flow and addresses are those of the recorded symbolic paths; races that only appear on paths where a read observes another write are not found (conservative: never invents a race); byte buffers are one location each; a map is one location (lookup, len and iteration read it, insertion and deletion write it); atomics conflict only with plain accesses",
+			"scenarios: Task.load/insert partition goroutines inside one Converge step (batch x concurrency); two tasks with any two of five data plans fetching one cached range concurrently and consuming the blocks as Task.load and dig.Insert do (copy into an own slice, read fields), also with node failures as solver Booleans so that the cache's error paths run concurrently with the other task (ZZ_C18_SharedFail); two tasks and the poller using the head cache concurrently, after a poller error or an announcement",
 			"a reported race is replayed by running the same harness natively with real goroutines under the Go race detector (go test -race); the race detector is used only as the replay oracle, never to decide",
 			"background head polling I/O, pgx, net/http internals are outside",
 		},
-		Bounds:  map[string]string{"quick": "load: (batch, conc) in {(2,2),(4,4),(3,2),(4,2)}; shared cache: 15 unordered plan pairs; head cache: 2 modes", "thorough": "adds (8,8),(6,3),(5,4)"},
+		Bounds:  map[string]string{"quick": "load: (batch, conc) in {(2,2),(4,4),(3,2),(4,2)}; shared cache: 15 unordered plan pairs, 4 of them also with node failures; head cache: 2 modes", "thorough": "adds (8,8),(6,3),(5,4); node failures for all 15 plan pairs"},
 		Outside: []string{"schedules that change control flow", "more than two tasks on one client", "reorgs in flight"},
 	})
 }
